@@ -17,12 +17,12 @@
      fix, kept for the regression statements);
    - case/new clauses are re-ordered into declaration order using Vec::swap_remove;
    - NameContext::no_dups reports TypeParameterBoundMultipleTimes;
-   - since fix <commit15> Ty::check_template checks the types written in data/codata declarations
+   - since fix eb42971 Ty::check_template checks the types written in data/codata declarations
      completely (a type parameter takes no arguments, a template as many as it has parameters, the
      arguments recursively) WITHOUT creating instances; [old_ty_check_template] .. [old_check_decls]
      are the code before that fix (head name only; finding C15-lazy-declaration-types), kept for the
      regression statements;
-   - since fix <commit12> Def::check compares the declared return type of `main` with i64
+   - since fix 5b8c76f Def::check compares the declared return type of `main` with i64
      (check_equality: Mismatch); [old_def_check] .. [old_check_main] are the code before that fix
      (finding main-non-integer-result of C12), kept for the regression statements.
    Errors are the variants of typing::errors::Error without their payload. No proofs here. *)
@@ -703,8 +703,8 @@ Definition check_before_fix : fprog -> cres fcprog := check_gen false.
 
 (* ---------- the code before the two fixes, for the regression statements ----------
    [old_check_gen strict_decls main_i64]: Program::check with the declaration types checked completely
-   (strict_decls = true, the code since fix <commit15>) or by head name only (false, the code before it), and with
-   (main_i64 = true, since fix <commit12>) or without (false) the comparison of main's return type with i64.
+   (strict_decls = true, the code since fix eb42971) or by head name only (false, the code before it), and with
+   (main_i64 = true, since fix 5b8c76f) or without (false) the comparison of main's return type with i64.
    old_check_gen true true = check (Proof/CheckOld.v old_check_gen_current). *)
 Definition old_ty_check_template (st : symtab) (params : fnamectx) (t : fty) : cres unit :=
   match t with
@@ -759,7 +759,7 @@ Definition old_check_gen (strict_decls main_i64 : bool) (p : fprog) : cres fcpro
   doc (defs, st1) <- old_check_defs main_i64 (defs_of (fpdecls p)) st;
   doc (das, cos) <- collect_types st1 (st_types st1);
   COk (mkfcprog (sort_by_name fdaname das) (sort_by_name fcoaname cos) defs).
-(* the checker before fix <commit15> (declaration types by head name only) *)
+(* the checker before fix eb42971 (declaration types by head name only) *)
 Definition old_check_decls : fprog -> cres fcprog := old_check_gen false true.
-(* the checker before fix <commit12> (return type of main unconstrained) *)
+(* the checker before fix 5b8c76f (return type of main unconstrained) *)
 Definition old_check_main : fprog -> cres fcprog := old_check_gen true false.
